@@ -453,5 +453,10 @@ pub fn random_history(r: &mut impl RngCore, scheme: Scheme, len: usize) -> Histo
         }
         steps.push(Step { op: random_op(r, &alpha, scheme), signer });
     }
+    if below(r, 4) == 0 {
+        // ends with a cross-scheme step (only CombinedKey histories have such a key; elsewhere it is skipped)
+        let op = random_op(r, &alpha, scheme);
+        steps.push(Step { op, signer: Signer::Alt });
+    }
     History { scheme, own, other, init, steps, fault: None }
 }
